@@ -33,6 +33,7 @@ def SYNC(): return op("SYNC")
 def SETLEN(a, n): return op("SETLEN", 0, a, n)
 def REUSE(e): return op("REUSE", e)
 def NEWREF(e): return op("NEWREF", e)
+def HNEWREF(): return op("HNEWREF")
 
 def npay_of(ops):
     n = 0
@@ -42,7 +43,7 @@ def npay_of(ops):
             n += int(f[3])
     return n
 
-def scenario(name, prop, ops, disk=4096, defs=None, timeout=300, extra="", nfiles=2, symbolic=None, group=None):
+def scenario(name, prop, ops, disk=4096, defs=None, timeout=600, extra="", nfiles=2, symbolic=None, group=None):
     npay = max(1, npay_of(ops))
     text = "#define H4V_PROG %s\n#define NPAY %d\n%s\n#include \"%s\"\n" % (
         ", \\\n  ".join(ops), npay, extra, os.path.join(VERIF, "harness/common/h_interp.c"))
